@@ -1780,7 +1780,7 @@ func (s *bucketSubject) queries(r *rand.Rand, probes [][]byte) {
 			return out
 		}
 		wanted := [][]uint32{
-			{all[0].v}, {all[len(all)-1].v}, pick(1), pick(2 + r.Intn(5)), pick(1 + len(all)/2),
+			{all[0].v}, {all[len(all)-1].v}, pick(1), pick(2 + r.Intn(5)), pick(1 + min(len(all)/2, 300)),
 			append(pick(2), maxv+1, maxv+77), {maxv + 5}, {},
 		}
 		for _, w := range wanted {
@@ -2124,7 +2124,15 @@ func bucketFraming(c *core.Ctx, r *rand.Rand, tag string, values [][]byte, want 
 	}
 	sorted := append([]int{}, ds...)
 	sort.Ints(sorted)
-	c.Op("bframes", fmt.Sprintf("ok n=%d d=%s", len(ds), showInts(sorted)))
+	vsize := 0
+	for _, v := range values {
+		vsize += len(v)
+	}
+	if vsize <= 200000 {
+		// (the model frames and re-reads its own tries over byte LISTS: kept to values of <= 200 KB; above that
+		// only the impl-side checks below)
+		c.Op("bframes", fmt.Sprintf("ok n=%d d=%s", len(ds), showInts(sorted)))
+	}
 	total := 0
 	for _, x := range blockSizes(values) {
 		total += x
